@@ -111,6 +111,22 @@ func (g *gen) call(instr ssa.Instruction, c *ssa.CallCommon, pos token.Pos) Val 
 		g.callSiteClauses("<dynamic>", args, c, pos)
 		// every call through a function value is recorded in the ghost log `dyncall`
 		g.emitLog(g.specEnvHere(), &EmitSpec{Log: "dyncall"})
+		if g.ctr != nil && g.ctr.DynCallsPure && sig.Results().Len() == 1 && (g.st.sortOf(sig.Results().At(0).Type()) == "Bool" || g.st.sortOf(sig.Results().At(0).Type()) == "String") {
+			// pure dynamic call: the result is a function of the function value and the arguments
+			fv := g.val(c.Value)
+			sorts := []string{fv.Sort}
+			ts := []string{fv.T}
+			for _, a := range args {
+				sorts = append(sorts, a.Sort)
+				ts = append(ts, a.T)
+			}
+			rs := g.st.sortOf(sig.Results().At(0).Type())
+			name := "dyn_" + sanitize(strings.Join(sorts[1:], "_")) + "_" + rs
+			g.declareFun(name, sorts, rs)
+			g.assumed["calls through function values in "+g.key+" are modelled as pure (dyncalls_pure)"] = true
+			g.useAbstract("dyn")
+			return Val{T: app(name, ts...), Sort: rs, Typ: sig.Results().At(0).Type()}
+		}
 		if g.ctr != nil && g.ctr.DynCallsFrame {
 			g.assumed["calls through function values in "+g.key+" are assumed to leave the modelled state unchanged (dyncalls_frame)"] = true
 			g.tick()
